@@ -24,6 +24,8 @@ func c02(c *core.Check) {
 	c02LastLine(c)
 	c02Forward(c)
 	c02CellKeys(c)
+	c02RunGlyphs(c)
+	c02FootnoteSnapshot(c)
 }
 
 func isResumeStack(t types.Type) bool {
@@ -601,5 +603,140 @@ func c02CellKeys(c *core.Check) {
 	}
 	if n == 0 {
 		r.Anchor("tableLayout: per-cell resume point lookup and update in the loop over a row's cells")
+	}
+}
+
+// c02RunGlyphs: the glyphs of every pango run reach the backend.  createFirstLinePango hands the glyphs of a pango
+// run to the last TextRun of the drawing by assigning the whole list; that is right only while every pango run gets
+// a TextRun of its own.  If the creation of a TextRun is skipped when the font is the one of the previous run (the
+// test compares with a value carried from one iteration to the next), the assignment overwrites the glyphs of that
+// previous run and its text is never drawn: the glyph list must then be extended, not replaced.
+func c02RunGlyphs(c *core.Check) {
+	p := c.Prog
+	r := c.Rule("R6", "every run's glyphs are kept: in createFirstLinePango either each pango run gets a backend run of its own (the test guarding the creation compares the font with a constant) or, when a backend run can be shared with the previous pango run, its glyph list is extended (append to the list already there) and never replaced", 1)
+	var fn *ssa.Function
+	for _, f := range p.FuncsOfPkg("text/draw") {
+		if f.Name() == "createFirstLinePango" {
+			fn = f
+		}
+	}
+	if fn == nil {
+		r.Anchor("text/draw.Context.createFirstLinePango")
+		return
+	}
+	var addFont *ssa.Call
+	core.Instrs(fn, func(in ssa.Instruction) {
+		if call, ok := in.(*ssa.Call); ok && call.Call.IsInvoke() && call.Call.Method.Name() == "AddFont" {
+			addFont = call
+		}
+	})
+	if addFont == nil || addFont.Referrers() == nil {
+		r.Anchor("createFirstLinePango: ctx.Output.AddFont(…)")
+		return
+	}
+	shared := false
+	found := false
+	for _, ref := range *addFont.Referrers() {
+		cmp, ok := ref.(*ssa.BinOp)
+		if !ok || (cmp.Op != token.NEQ && cmp.Op != token.EQL) {
+			continue
+		}
+		found = true
+		other := cmp.Y
+		if other == ssa.Value(addFont) {
+			other = cmp.X
+		}
+		if _, isK := other.(*ssa.Const); !isK {
+			shared = true
+		}
+	}
+	if !found {
+		r.Anchor("createFirstLinePango: the test guarding the creation of a backend run")
+		return
+	}
+	// the store into the Glyphs field of a backend.TextRun
+	n := 0
+	core.Instrs(fn, func(in ssa.Instruction) {
+		st, ok := in.(*ssa.Store)
+		if !ok {
+			return
+		}
+		fa, ok := st.Addr.(*ssa.FieldAddr)
+		if !ok || core.FieldName(fa) != "Glyphs" {
+			return
+		}
+		if pt, ok := fa.X.Type().Underlying().(*types.Pointer); !ok || !strings.HasSuffix(pt.Elem().String(), "backend.TextRun") {
+			return
+		}
+		n++
+		extended := false
+		if call, ok := st.Val.(*ssa.Call); ok {
+			if b, isB := call.Call.Value.(*ssa.Builtin); isB && b.Name() == "append" && len(call.Call.Args) > 0 {
+				if ld, ok := call.Call.Args[0].(*ssa.UnOp); ok {
+					if fa2, ok := ld.X.(*ssa.FieldAddr); ok && fa2.Field == fa.Field {
+						extended = true
+					}
+				}
+			}
+		}
+		r.Cond(!shared || extended, "text/draw.createFirstLinePango | glyphs of the run handed to the backend", p.Pos(st.Pos()), "each pango run has its own backend run (or the list is extended)",
+			"a backend run can be shared by consecutive pango runs of the same font, but its glyph list is replaced by the glyphs of the last of them: the text of the earlier runs is never drawn (\"alpha βήτα gamma\" sends 5 glyphs instead of 16)")
+	})
+	if n == 0 {
+		r.Anchor("createFirstLinePango: runDst.Glyphs = …")
+	}
+}
+
+// c02FootnoteSnapshot: the list of footnotes restored at the start of every re-pagination pass is a snapshot.
+// layoutDocument saves context.footnotes before the first pass and puts a copy of the saved list back before each
+// later pass; the passes remove footnotes from context.footnotes in place (removeFromBoxes), so the saved list must
+// not share its backing array with it: it is a fresh copy (append to a nil or empty list, or make + copy).
+func c02FootnoteSnapshot(c *core.Check) {
+	p := c.Prog
+	r := c.Rule("R7", "the footnotes restored before a re-pagination pass come from a snapshot: in layoutDocument the list copied back into context.footnotes inside the pass loop was itself built as a fresh copy before the loop, not read from context.footnotes (which the passes filter in place)", 1)
+	fn := p.Fn("html/layout", "layoutDocument")
+	if fn == nil {
+		r.Anchor("html/layout.layoutDocument")
+		return
+	}
+	isFresh := func(v ssa.Value) bool {
+		call, ok := v.(*ssa.Call)
+		if !ok {
+			return false
+		}
+		b, isB := call.Call.Value.(*ssa.Builtin)
+		if !isB || b.Name() != "append" || len(call.Call.Args) != 2 {
+			return false
+		}
+		switch a := call.Call.Args[0].(type) {
+		case *ssa.Const:
+			return a.Value == nil
+		case *ssa.Slice:
+			// empty literal
+			return false
+		}
+		return false
+	}
+	n := 0
+	core.Instrs(fn, func(in ssa.Instruction) {
+		st, ok := in.(*ssa.Store)
+		if !ok {
+			return
+		}
+		fa, ok := st.Addr.(*ssa.FieldAddr)
+		if !ok || core.FieldName(fa) != "footnotes" || core.InnermostLoop(fn, st.Block()) == nil {
+			return
+		}
+		call, ok := st.Val.(*ssa.Call)
+		if !ok || !isFresh(call) {
+			return
+		}
+		n++
+		saved := call.Call.Args[1]
+		r.Cond(isFresh(saved), "html/layout.layoutDocument | list restored into context.footnotes", p.Pos(st.Pos()), "the saved list is a fresh copy made before the loop",
+			"the list saved before the first pass is context.footnotes itself: the passes filter that list in place, the saved list is corrupted and the pages made again by a second pass do not find their footnotes (three footnotes and content: counter(pages): the bodies of two footnotes are never drawn)")
+	})
+	if n == 0 {
+		r.Anchor("layoutDocument: context.footnotes = append([]Box(nil), saved...) in the pass loop")
 	}
 }
